@@ -16,6 +16,31 @@ pub fn configure(inst: &str, cfg: &mut Config) {
 
 fn z() -> Sym { Sym::lit(0.0) }
 
+fn cz() -> Cmplx { Cmplx::new(z(), z()) }
+
+/// Nullstellensatz-style certificate over the complex field: to show g = 0 from hypotheses h_i = 0 and m != 0,
+/// the harness supplies cofactors c_i with  g*m = sum c_i*h_i  as a polynomial IDENTITY.  The solver decides
+/// (1) the identity (both parts), (2) each h_i = 0 under the path condition, (3) m != 0 under the path condition,
+/// and (4) once, the abstract field step  G*M = 0 /\ M != 0 => G = 0.  Returns true when all of it is discharged.
+fn certificate(tag: &str, g: Cmplx, m: Cmplx, hyps: &[(Cmplx, Cmplx)]) -> bool {
+    let ok = |p: Proof| p == Proof::Solver || p == Proof::Syntactic;
+    let mut rhs = cz();
+    for (h, c) in hyps { rhs = rhs + *c * *h; }
+    let lhs = g * m;
+    let mut all = ok(prove_eq(&format!("{}: certificate identity (real part)", tag), lhs.real, rhs.real));
+    all &= ok(prove_eq(&format!("{}: certificate identity (imaginary part)", tag), lhs.imag, rhs.imag));
+    for (k, (h, _)) in hyps.iter().enumerate() {
+        all &= ok(prove(&format!("{}: hypothesis {} vanishes (real part)", tag, k), eq(h.real, z())));
+        all &= ok(prove(&format!("{}: hypothesis {} vanishes (imaginary part)", tag, k), eq(h.imag, z())));
+    }
+    all &= ok(prove(&format!("{}: multiplier is nonzero", tag), B::or(vec![ne(m.real, z()), ne(m.imag, z())])));
+    // the field step, on abstract values
+    let (gr, gi, mr, mi) = (Sym::var("G.re"), Sym::var("G.im"), Sym::var("M.re"), Sym::var("M.im"));
+    let step = B::implies(B::and(vec![eq(gr * mr - gi * mi, z()), eq(gr * mi + gi * mr, z()), B::or(vec![ne(mr, z()), ne(mi, z())])]), B::and(vec![eq(gr, z()), eq(gi, z())]));
+    all &= ok(prove("complex field step: G*M = 0 and M != 0 imply G = 0", step));
+    all
+}
+
 /// p(root) = 0 as a complex identity, Horner-free
 fn is_root(tag: &str, coeffs: &[Cmplx], root: Cmplx) {
     let mut acc = Cmplx::new(z(), z());
@@ -52,7 +77,15 @@ pub fn body(inst: &str) {
             match catch(run) {
                 Ok(r) => {
                     prove("exactly 3 values are returned", if r.size() == 3 { B::True } else { B::False });
-                    if r.size() == 3 { for k in 0..3 { is_root(&format!("triple root {}", k), &coeffs, r[k]); } }
+                    if r.size() == 3 { for k in 0..3 {
+                        // certificate: with h = 3a w + b,  27 a^2 p(w) = d1 - 3 d0 h + h^3
+                        let w = r[k];
+                        let h = w * (a * three) + b;
+                        let g = a * w * w * w + b * w * w + c * w + d;
+                        let m = a * a * Sym::lit(27.0);
+                        let one = Cmplx::new(Sym::lit(1.0), z());
+                        if !certificate(&format!("triple root {}", k), g, m, &[(d1, one), (d0, h * Sym::lit(-3.0)), (h, h * h)]) { is_root(&format!("triple root {}", k), &coeffs, r[k]); }
+                    } }
                 }
                 Err(st) => must_not_stop("cubic with a triple root: finite roots must be returned", &st),
             }
@@ -61,7 +94,24 @@ pub fn body(inst: &str) {
             match catch(run) {
                 Ok(r) => {
                     prove(&format!("exactly {} values are returned", deg), if r.size() == deg { B::True } else { B::False });
-                    if r.size() == deg { for k in 0..deg { is_root(&format!("degree {} root {}", deg, k), &coeffs, r[k]); } }
+                    if r.size() == deg {
+                        if deg == 2 && !real {
+                            // complex coefficients: the direct obligation for the root c/q is beyond nlsat; decide it through a certificate.
+                            // q := a * root0  (root0 = q/a);  h2 := q^2 + b q + a c;  h1 := root1 * q - c
+                            let (a, b, c) = (coeffs[2], coeffs[1], coeffs[0]);
+                            is_root("degree 2 root 0", &coeffs, r[0]);
+                            let q = a * r[0];
+                            let h2 = q * q + b * q + a * c;
+                            let h1 = r[1] * q - c;
+                            let g = a * r[1] * r[1] + b * r[1] + c;
+                            let cof1 = a * c * Sym::lit(2.0) + a * h1 + b * q;
+                            if r[1].real.is_const() && r[1].imag.is_const() { is_root("degree 2 root 1 (q = 0 branch)", &coeffs, r[1]); }
+                            else if certificate("degree 2 root 1 (c/q)", g, q * q, &[(h2, c), (h1, cof1)]) { check_that(true, || String::new()); }
+                            else { is_root("degree 2 root 1", &coeffs, r[1]); }
+                        } else {
+                            for k in 0..deg { is_root(&format!("degree {} root {}", deg, k), &coeffs, r[k]); }
+                        }
+                    }
                     if deg == 2 && r.size() == 2 {
                         // Vieta: the two values are the two roots (with multiplicity), not the same root twice
                         let s = r[0] + r[1];
